@@ -1,2 +1,44 @@
-(* Property C15 (placeholder while the proofs are being written): statements only about the model. *)
-From Verif Require Import Base.Bytes Base.Utf8 Gen.Keywords Lex.Lexer Bytes.Quote.
+(* Property C15: the quoting functions are right inverses of lexing.
+   Model: Bytes/Quote.v (token/quote.go) and Lex/Lexer.v (lexer.go), both tied to the code by exhaustive/sampled correspondence.
+   unicode.IsPrint is universally quantified: the theorems hold for every predicate on code points.
+   tok1 k buf str = the token of kind k, Raw = buf, AsString = str, no comments, no space, Pos 0, End len(buf). *)
+From Verif Require Import Base.Bytes Base.Utf8 Gen.Keywords Lex.Lexer Bytes.Quote Bytes.QuoteProofs.
+
+(* for every string s (any bytes, valid UTF-8 or not): QuoteSQLString(s) lexes as exactly one string token, then <eof>, value s *)
+Theorem C15_string : forall (is_print : N -> bool) (s : bytes),
+  lex_all (quote_string is_print s) = LOk [tok1 K_string (quote_string is_print s) s; tok_eof (length (quote_string is_print s))].
+Proof. exact quote_string_lexes. Qed.
+Print Assumptions C15_string.
+
+(* for every byte slice b: QuoteSQLBytes(b) lexes as exactly one bytes token whose value is b *)
+Theorem C15_bytes : forall (b : bytes),
+  lex_all (quote_bytes b) = LOk [tok1 K_bytes (quote_bytes b) b; tok_eof (length (quote_bytes b))].
+Proof. exact quote_bytes_lexes. Qed.
+Print Assumptions C15_bytes.
+
+(* for every non-empty s: QuoteSQLIdent(s) lexes as exactly one identifier token named s *)
+Theorem C15_ident : forall (is_print : N -> bool) (s : bytes), s <> [] ->
+  exists q, quote_ident is_print s = Some q /\ lex_all q = LOk [tok1 K_ident q s; tok_eof (length q)].
+Proof. exact quote_ident_lexes. Qed.
+Print Assumptions C15_ident.
+
+(* ... and it is returned unquoted only if s is not a reserved keyword and is already identifier-shaped *)
+Theorem C15_ident_unquoted_only_if : forall (is_print : N -> bool) (s q : bytes),
+  quote_ident is_print s = Some q -> (exists t, q = bq :: t) \/ (q = s /\ is_keyword s = false /\ ident_shaped s).
+Proof. exact quote_ident_unquoted_only_if. Qed.
+Print Assumptions C15_ident_unquoted_only_if.
+
+(* the decoder half used above, for all inputs: DecodeRune accepts only valid runes and EncodeRune restores the bytes read *)
+Theorem C15_utf8_roundtrip : forall s r size,
+  decode_rune s = (r, size) -> s <> [] -> (r =? rune_error)%N && (size =? 1)%nat = false ->
+  valid_rune r = true /\ encode_rune r = firstn size s.
+Proof. exact decode_valid. Qed.
+Print Assumptions C15_utf8_roundtrip.
+
+(* non-vacuity: a value with both quotes, a backslash, a newline, a control character, an invalid byte, a 2-, 3- and 4-byte rune *)
+Example C15_example :
+  let s := [x27; x22; x5c; x0a; x01; xff; xc3; xa9; xe2; x80; x8b; xf0; x9f; x98; x80] in
+  quote_string (fun r => N.leb 32 r && negb (N.eqb r 8203)) s =
+    bs """'\""\\\n\x01\xff" ++ [xc3; xa9] ++ bs "\u200b" ++ [xf0; x9f; x98; x80] ++ bs """"
+  /\ quote_ident (fun _ => true) (bs "select") = Some (bs "`select`").
+Proof. vm_compute. split; reflexivity. Qed.
